@@ -166,13 +166,16 @@ example : regenVal ((buildExpr flatFc flatE flatSt).2.pop ++ [Flat.Row.brk 0]) 9
     side, break, continue, control stop, create with / without variable, select any|many from instances (with / without a `coreE` where clause over
     `selected`, accepted in the O_OBJ scope, the variable declared after it), delete,
     relate / unrelate (+ using), and `while` loops, `for each` loops (loop variable visible or declared by the loop) and
-    `if` statements WITHOUT elif / else over such lists (nested to any depth: a new ACT_BLK per nested list, R608 / R605 / R607, its own R602 / R661 chain, an empty body included; for the `if`,
-    R682 / R683 navigate to no clause), with variable / instance names other than `self`: reading the population
+    `if` statements WITH any number of elif clauses and an optional else clause over such lists (nested to any depth: a new
+    ACT_BLK per nested list, R608 / R605 / R607 / R658 / R606, its own R602 / R661 chain, an empty body included; every
+    clause's own ACT_SMT lies in the block HOLDING the if, is chained nowhere and is skipped by the first-statement filter;
+    R682 / R683 navigate to exactly the clauses of that `if`, in creation order), with variable / instance names other than
+    `self`: reading the population
     `prebuildFlat` builds back with `regenFlat` (outer block R666, R602 first-statement filter, R603 subtype dispatch,
     R661 successor chain to its end, variables through the symbol table) prints `genTokens`.
     `flatOk`: the builder never failed (the flag is never set back: `okAll_of_flatOk`).
-    MISSING for the full `regen_of_prebuild`: elif / else clauses
-    (R658 / R606, R682 / R683), `self` as an instance name. -/
+    MISSING for the full `regen_of_prebuild`: `self` as an instance name, select related (chains), invocations,
+    event statements. -/
 theorem regen_of_prebuild_partial (fc : FCtx) (a : Block) (hc : coreB a = true) (hok : flatOk fc a = true) :
     regenFlat (prebuildFlat fc a) = genTokens a :=
   regenFlat_prebuildFlat fc a hc (okAll_of_flatOk fc a hc hok)
